@@ -57,6 +57,12 @@ func rtName(fileName, class string) string {
 		return fileName + "."
 	case "dotted":
 		return fileName + "." + ts + ".gz"
+	case "dashdate":
+		return fileName + "-20240101"
+	case "commav":
+		return fileName + ",v"
+	case "bare":
+		return fileName
 	}
 	return "other.txt"
 }
